@@ -1,5 +1,5 @@
 (* C18: reflection data survive MTZ -> SF-mmCIF -> MTZ. Statements only; proofs in Mtz/RowBufProofs.v. *)
-From GV Require Import Base.Str Mtz.Fmt Mtz.RowBuf Mtz.RowBufProofs.
+From GV Require Import Base.Str Mtz.Fmt Mtz.RowBuf Mtz.RowBufProofs Mtz.SpecDefs Mtz.Spec_gen Mtz.SpecCheck.
 Local Open Scope Z_scope.
 
 (* The (repaired) row formatter never stores outside char buf[256]: for every recipe (non-empty rows; variables
@@ -27,3 +27,21 @@ Theorem rowbuf_fixed_on_witnesses :
   loop_body put_item [wide_row] = Some (body_spec [wide_row]).
 Proof. exact (conj loop_body_fixed_phwt loop_body_fixed_wide). Qed.
 Print Assumptions rowbuf_fixed_on_witnesses.
+
+(* The default mmCIF->MTZ specification inverts the default MTZ->mmCIF specification (tables regenerated from the
+   code, finite check): every mapped column's tag is known to the inverse table with the same MTZ type and a label
+   that is one of the alternatives of the forward line ({prev} = the inverse label of the preceding line); the
+   status codes are o=1,f=0. *)
+Theorem spec_inverse :
+  inverse_ok c2m_merged [] m2c_merged = true /\ inverse_ok c2m_unmerged [] m2c_unmerged = true /\
+  status_codes_ok c2m_merged = true.
+Proof. exact (conj spec_inverse_merged (conj spec_inverse_unmerged spec_status_codes)). Qed.
+Print Assumptions spec_inverse.
+
+(* meaning of inverse_ok for a member line, for any tables *)
+Theorem spec_inverse_meaning : forall c2m l prev, inverse_ok c2m prev l = true ->
+  forall e, In e l -> is_var e = false ->
+  exists c, lookup (m_tag e) (builtin_hkl ++ c2m) = Some c /\ c_ty c = m_type e /\
+            exists a p, In a (m_alts e) /\ subst_prev p a = c_lab c.
+Proof. exact inverse_ok_spec. Qed.
+Print Assumptions spec_inverse_meaning.
